@@ -1,3 +1,242 @@
-/-! C08 property theorems — stub (not built yet). -/
+import TTProofs.Lemmas.C08_Main
+import Mathlib.Data.List.GetD
+/-!
+# C08 — coalescent priors equal the Kingman density of their demographic function
+
+Models: `TTModel/C08_Coalescent.lean` (`constantLogProb`, `skyrideLogProb`, `skygridLogProb`,
+`exponentialLogProb` — the code's argsort / cumsum[:-1] / gather formulation).
+Spec (`Lemmas/C08_Spec.lean`, no sorting): `lineagesAt samp coal t = #{s < t} - #{c < t}`,
+`kingman samp coal N a b = -(∫_a^b C(k(t),2)/N(t) dt) - Σ_j log N(c_j)`.
+
+Every theorem quantifies over ALL list lengths and over EVERY order in which the sampling block and the
+coalescent block are supplied (`samp' ~ samp`, `coal' ~ coal`); ties between event times are allowed
+everywhere except where `N` itself is two-valued (a coalescent time on a grid point).
+The integration window `[a, b]` is any interval containing all events (`a = 0`, `b ≥` root height and
+last grid point is the documented one): outside the events the integrand is zero.
+-/
 namespace TTProps.C08
+open TT TT.C08 MeasureTheory intervalIntegral
+
+/-! ## generic step-function lemma -/
+
+/-- **sorted_sum_eq_integral** — for ANY time-sorted event list (ties in any order), any per-piece
+integrand `φ k j` with interval integrals `c k j a b`, the sum over consecutive sorted events of
+`c (running lineage count) (running v-mark count)` is the integral, from the first to the last event, of
+`φ` evaluated at the *declarative* counters (events strictly before `x`). -/
+theorem sorted_sum_eq_integral (φ : ℤ → ℕ → ℝ → ℝ) (c : ℤ → ℕ → ℝ → ℝ → ℝ) (v : Int)
+    (hφ : ∀ k j a b, a ≤ b → IntervalIntegrable (φ k j) volume a b ∧ ∫ x in a..b, φ k j x = c k j a b)
+    (l : List (Ev ℝ)) (e1 : Ev ℝ) (k : ℤ) (j : ℕ) (hs : TimeSorted (e1 :: l)) :
+    ∫ x in e1.t..lastTime e1 l, φ (k + kAt (e1 :: l) x) (j + jAt v (e1 :: l) x) x
+      = walk c v k j (e1 :: l) :=
+  (walk_integral φ c v hφ l e1 k j hs).2
+
+example : ∫ x in (0:ℝ)..lastTime (⟨0, 1⟩ : Ev ℝ) [⟨0, 1⟩, ⟨1, -1⟩],
+      (fun (k : ℤ) (_ : ℕ) (_ : ℝ) => (k : ℝ)) (0 + kAt [⟨0, 1⟩, ⟨0, 1⟩, ⟨1, -1⟩] x) (0 + jAt 0 [⟨0, 1⟩, ⟨0, 1⟩, ⟨1, -1⟩] x) x
+      = walk (fun k _ a b => (b - a) * (k : ℝ)) 0 0 0 [⟨0, 1⟩, ⟨0, 1⟩, ⟨1, -1⟩] :=
+  sorted_sum_eq_integral (fun k _ _ => (k : ℝ)) (fun k _ a b => (b - a) * (k : ℝ)) 0
+    (fun k _ a b _ => const_piece (k : ℝ) a b) _ _ 0 0 (by simp [TimeSorted])
+
+/-! ## lineage counts -/
+
+theorem lineage_count_sorted : ∀ (S : List (Ev ℝ)) (k : ℤ), TimeSorted S →
+    ∀ (i : ℕ) (h : i + 1 < S.length) (x : ℝ), (S[i]'(by omega)).t < x → x ≤ (S[i + 1]'h).t →
+      ((cumsumFrom k (marks S)).dropLast)[i]? = some (k + kAt S x)
+  | [], _, _, i, h, _, _, _ => by simp at h
+  | [_], _, _, i, h, _, _, _ => by simp at h
+  | e1 :: e2 :: rest, k, hs, i, h, x, hlo, hhi => by
+      have hp := List.pairwise_cons.mp hs
+      have hp2 := List.pairwise_cons.mp hp.2
+      simp only [marks, List.map_cons, cumsumFrom, List.dropLast_cons_cons]
+      cases i with
+      | zero =>
+        simp only [List.getElem_cons_zero, List.getElem_cons_succ] at hlo hhi
+        have hz : ∀ e ∈ e2 :: rest, x ≤ e.t := by
+          intro e he
+          rcases List.mem_cons.mp he with rfl | he
+          · exact hhi
+          · exact le_trans hhi (hp2.1 e he)
+        rw [kAt_cons, kAt_eq_zero hz]
+        simp [hlo]
+      | succ i =>
+        simp only [List.getElem_cons_succ] at hlo hhi
+        have h' : i + 1 < (e2 :: rest).length := by simpa using h
+        have ih := lineage_count_sorted (e2 :: rest) (k + e1.mark) hp.2 i h' x hlo hhi
+        simp only [marks, List.map_cons, cumsumFrom] at ih
+        have hle : e1.t ≤ ((e2 :: rest)[i]'(by omega)).t := hp.1 _ (List.getElem_mem _)
+        have hlt : e1.t < x := lt_of_le_of_lt hle hlo
+        rw [List.getElem?_cons_succ, ih, kAt_cons e1 (e2 :: rest), if_pos hlt, add_assoc]
+
+/-- **lineage_count_correct** — the code's `mask_sorted.cumsum(-1)[..., :-1]` at position `i` is the number
+of lineages `k(x) = #{s < x} - #{c < x}` for every `x` in the `i`-th inter-event interval `(t_i, t_{i+1}]`,
+for every order of the input blocks and every tie pattern (zero-length intervals contain no `x`). -/
+theorem lineage_count_correct {samp coal samp' coal' : List ℝ} (grid : List ℝ)
+    (hs : samp'.Perm samp) (hc : coal'.Perm coal) (hlen : samp.length = coal.length + 1)
+    (i : ℕ) (h : i + 1 < (sortEvents (mkEvents (samp' ++ coal') grid)).length) (x : ℝ)
+    (hlo : ((sortEvents (mkEvents (samp' ++ coal') grid))[i]'(by omega)).t < x)
+    (hhi : x ≤ ((sortEvents (mkEvents (samp' ++ coal') grid))[i + 1]'h).t) :
+    (lineages (sortEvents (mkEvents (samp' ++ coal') grid)))[i]? = some (lineagesAt samp coal x) := by
+  have hlen' : samp'.length = coal'.length + 1 := by rw [hs.length_eq, hc.length_eq]; exact hlen
+  have hperm : (sortEvents (mkEvents (samp' ++ coal') grid)).Perm (evs samp coal grid) := by
+    rw [mkEvents_eq samp' coal' grid hlen']
+    exact (sortEvents_perm _).trans (evs_perm grid hs hc)
+  have := lineage_count_sorted _ 0 (sortEvents_sorted (mkEvents (samp' ++ coal') grid)) i h x hlo hhi
+  unfold lineages cumsum
+  rw [this, zero_add, kAt_perm hperm, kAt_evs]
+
+/-! ## model = Kingman density -/
+
+/-- **constant_eq_kingman** — `ConstantCoalescent.log_prob` is the Kingman density of `N(t) = θ`. -/
+theorem constant_eq_kingman (θ : ℝ) {samp coal samp' coal' : List ℝ}
+    (hs : samp'.Perm samp) (hc : coal'.Perm coal) (hlen : samp.length = coal.length + 1) (a b : ℝ)
+    (ha : ∀ t ∈ samp ++ coal ++ [], a ≤ t) (hb : ∀ t ∈ samp ++ coal ++ [], t ≤ b) :
+    constantLogProb θ (samp' ++ coal') = kingman samp coal (constN θ) a b := by
+  have hI := window_integral (fun k _ _ => -(choose2 k : ℝ) / θ)
+    (fun k _ a b => -(choose2 k : ℝ) * (id b - id a) / θ) 2
+    (fun k j a b _ => by
+      obtain ⟨h1, h2⟩ := const_piece (-(choose2 k : ℝ) / θ) a b
+      exact ⟨h1, by rw [h2]; simp only [id]; ring⟩)
+    (fun _ _ => by simp [choose2_zero]) (fun _ _ => by simp [choose2_one]) [] hs hc hlen a b ha hb
+  have hlen' : samp'.length = coal'.length + 1 := by rw [hs.length_eq, hc.length_eq]; exact hlen
+  have hn : taxaCount (samp' ++ coal') - 1 = coal.length := by
+    unfold taxaCount; rw [List.length_append, ← hc.length_eq]; omega
+  unfold constantLogProb constantIntegral kingman constN lineages cumsum
+  rw [hn]
+  have hw := zipWith_eq_walk (fun k d => -(choose2 k : ℝ) * d / θ) id 2
+    (sortEvents (mkEvents (samp' ++ coal') [])) 0 0
+  rw [List.map_id] at hw
+  rw [hw, ← hI, ← intervalIntegral.integral_neg]
+  congr 1
+  · congr 1; funext x; ring
+  · simp [List.map_const', List.sum_replicate]
+
+/-- **skyride_eq_kingman** — `PiecewiseConstantCoalescent.log_prob` is the Kingman density of the step function
+`N(t) = θ[#{c_j < t}]` (one piece per inter-coalescent interval), for pairwise distinct coalescent times. -/
+theorem skyride_eq_kingman (θ : List ℝ) {samp coal samp' coal' : List ℝ}
+    (hs : samp'.Perm samp) (hc : coal'.Perm coal) (hlen : samp.length = coal.length + 1) (a b : ℝ)
+    (ha : ∀ t ∈ samp ++ coal ++ [], a ≤ t) (hb : ∀ t ∈ samp ++ coal ++ [], t ≤ b)
+    (hθ : θ.length = coal.length) (hnd : coal.Nodup) :
+    skyrideLogProb θ (samp' ++ coal') = kingman samp coal (stepN θ coal) a b := by
+  have hI := window_integral (fun k j _ => (choose2 k : ℝ) / θ.getD j 0)
+    (fun k j a b => (choose2 k : ℝ) * (b - a) / θ.getD j 0) (-1)
+    (fun k j a b _ => by
+      obtain ⟨h1, h2⟩ := const_piece ((choose2 k : ℝ) / θ.getD j 0) a b
+      exact ⟨h1, by rw [h2]; ring⟩)
+    (fun _ _ => by simp [choose2_zero]) (fun _ _ => by simp [choose2_one]) [] hs hc hlen a b ha hb
+  unfold skyrideLogProb skyrideIntegral kingman lineages skyrideIdx cumsum
+  rw [zipWith3_eq_walk (fun k d i => (choose2 k : ℝ) * d / θ.getD i 0) (-1), ← hI]
+  congr 1
+  · congr 2; funext x; rw [jAt_neg_evs]; rfl
+  · have := sum_rank_eq (fun i => Real.log (θ.getD i 0)) coal hnd
+    unfold stepN
+    rw [this, ← hθ, map_getD_range Real.log 0 θ]
+    rfl
+
+/-- **skygrid_eq_kingman** — `PiecewiseConstantCoalescentGrid.log_prob` is the Kingman density of the step
+function `N(t) = θ[#{grid points < t}]`; grid points may lie anywhere (before the first coalescence, on
+sampling times, beyond the root) but not on a coalescent time, where `N` is two-valued. -/
+theorem skygrid_eq_kingman (θ grid : List ℝ) {samp coal samp' coal' : List ℝ}
+    (hs : samp'.Perm samp) (hc : coal'.Perm coal) (hlen : samp.length = coal.length + 1) (a b : ℝ)
+    (ha : ∀ t ∈ samp ++ coal ++ grid, a ≤ t) (hb : ∀ t ∈ samp ++ coal ++ grid, t ≤ b)
+    (hyoung : ∀ c ∈ coal, ∃ s ∈ samp, s < c) (hne : ∀ c ∈ coal, ∀ g ∈ grid, g ≠ c) :
+    skygridLogProb θ grid (samp' ++ coal') = kingman samp coal (stepN θ grid) a b := by
+  have hI := window_integral (fun k j _ => (choose2 k : ℝ) / θ.getD j 0)
+    (fun k j a b => (choose2 k : ℝ) * (b - a) / θ.getD j 0) 0
+    (fun k j a b _ => by
+      obtain ⟨h1, h2⟩ := const_piece ((choose2 k : ℝ) / θ.getD j 0) a b
+      exact ⟨h1, by rw [h2]; ring⟩)
+    (fun _ _ => by simp [choose2_zero]) (fun _ _ => by simp [choose2_one]) grid hs hc hlen a b ha hb
+  have hL := grid_logs (fun i => Real.log (θ.getD i 0)) grid hs hc hlen hyoung hne
+  unfold skygridLogProb skygridIntegral skygridLogs kingman lineages
+  dsimp only
+  rw [show (skygridIdx (sortEvents (mkEvents (samp' ++ coal') grid))).dropLast
+      = (cumsumFrom 0 (isMark 0 (marks (sortEvents (mkEvents (samp' ++ coal') grid))))).dropLast from rfl]
+  unfold cumsum
+  rw [zipWith3_eq_walk (fun k d i => (choose2 k : ℝ) * d / θ.getD i 0) 0, ← hI]
+  congr 1
+  congr 2; funext x; rw [jAt_zero_evs]; rfl
+
+/-- **exponential_eq_kingman** — `ExponentialCoalescent.log_prob` is the Kingman density of
+`N(t) = θ e^{-g t}` for every growth rate `g ≠ 0` of either sign (the code's own TODO: `g = 0` divides by
+zero; excluded). -/
+theorem exponential_eq_kingman (θ g : ℝ) (hg : g ≠ 0) {samp coal samp' coal' : List ℝ}
+    (hs : samp'.Perm samp) (hc : coal'.Perm coal) (hlen : samp.length = coal.length + 1) (a b : ℝ)
+    (ha : ∀ t ∈ samp ++ coal ++ [], a ≤ t) (hb : ∀ t ∈ samp ++ coal ++ [], t ≤ b)
+    (hyoung : ∀ c ∈ coal, ∃ s ∈ samp, s < c) :
+    exponentialLogProb θ g (samp' ++ coal') = kingman samp coal (expN θ g) a b := by
+  have hI := window_integral (fun k _ x => (choose2 k : ℝ) * (Real.exp (x * g) / θ))
+    (fun k _ a b => (choose2 k : ℝ) * ((Real.exp (b * g) - Real.exp (a * g)) / (θ * g))) 2
+    (fun k j a b _ => by
+      obtain ⟨h1, h2⟩ := exp_piece g hg a b
+      refine ⟨(h1.div_const θ).const_mul _, ?_⟩
+      rw [intervalIntegral.integral_const_mul, intervalIntegral.integral_div, h2]
+      rw [div_div, mul_comm g θ])
+    (fun _ _ => by simp [choose2_zero]) (fun _ _ => by simp [choose2_one]) [] hs hc hlen a b ha hb
+  have hL := plain_logs (fun t => Real.log (θ * Real.exp (-t * g))) hs hc hlen hyoung
+  unfold exponentialLogProb exponentialIntegral exponentialLogs kingman lineages cumsum
+  have hw := zipWith_eq_walk (fun k d => (choose2 k : ℝ) * (d / (θ * g))) (fun t => Real.exp (t * g)) 2
+    (sortEvents (mkEvents (samp' ++ coal') [])) 0 0
+  simp only [trans_exp_real, trans_log_real]
+  rw [hw, ← hI, hL]
+  congr 1
+  · congr 2; funext x
+    unfold expN
+    rw [Real.exp_neg, mul_comm g x]
+    simp only [div_eq_mul_inv, mul_inv, inv_inv]
+    ring
+  · congr 2; funext c; unfold expN; ring_nf
+
+/-! ## the value does not depend on the order in which node heights are supplied -/
+
+/-- **constant_perm_invariant** — any permutation of the sampling block and of the coalescent block (any
+tie pattern) gives the same value. -/
+theorem constant_perm_invariant (θ : ℝ) {samp coal samp' coal' : List ℝ}
+    (hs : samp'.Perm samp) (hc : coal'.Perm coal) (hlen : samp.length = coal.length + 1) :
+    constantLogProb θ (samp' ++ coal') = constantLogProb θ (samp ++ coal) := by
+  obtain ⟨a, b, ha, hb⟩ := exists_window (samp ++ coal ++ [])
+  rw [constant_eq_kingman θ hs hc hlen a b ha hb,
+    constant_eq_kingman θ (List.Perm.refl _) (List.Perm.refl _) hlen a b ha hb]
+
+theorem skyride_perm_invariant (θ : List ℝ) {samp coal samp' coal' : List ℝ}
+    (hs : samp'.Perm samp) (hc : coal'.Perm coal) (hlen : samp.length = coal.length + 1)
+    (hθ : θ.length = coal.length) (hnd : coal.Nodup) :
+    skyrideLogProb θ (samp' ++ coal') = skyrideLogProb θ (samp ++ coal) := by
+  obtain ⟨a, b, ha, hb⟩ := exists_window (samp ++ coal ++ [])
+  rw [skyride_eq_kingman θ hs hc hlen a b ha hb hθ hnd,
+    skyride_eq_kingman θ (List.Perm.refl _) (List.Perm.refl _) hlen a b ha hb hθ hnd]
+
+theorem skygrid_perm_invariant (θ grid : List ℝ) {samp coal samp' coal' : List ℝ}
+    (hs : samp'.Perm samp) (hc : coal'.Perm coal) (hlen : samp.length = coal.length + 1)
+    (hyoung : ∀ c ∈ coal, ∃ s ∈ samp, s < c) (hne : ∀ c ∈ coal, ∀ g ∈ grid, g ≠ c) :
+    skygridLogProb θ grid (samp' ++ coal') = skygridLogProb θ grid (samp ++ coal) := by
+  obtain ⟨a, b, ha, hb⟩ := exists_window (samp ++ coal ++ grid)
+  rw [skygrid_eq_kingman θ grid hs hc hlen a b ha hb hyoung hne,
+    skygrid_eq_kingman θ grid (List.Perm.refl _) (List.Perm.refl _) hlen a b ha hb hyoung hne]
+
+theorem exponential_perm_invariant (θ g : ℝ) (hg : g ≠ 0) {samp coal samp' coal' : List ℝ}
+    (hs : samp'.Perm samp) (hc : coal'.Perm coal) (hlen : samp.length = coal.length + 1)
+    (hyoung : ∀ c ∈ coal, ∃ s ∈ samp, s < c) :
+    exponentialLogProb θ g (samp' ++ coal') = exponentialLogProb θ g (samp ++ coal) := by
+  obtain ⟨a, b, ha, hb⟩ := exists_window (samp ++ coal ++ [])
+  rw [exponential_eq_kingman θ g hg hs hc hlen a b ha hb hyoung,
+    exponential_eq_kingman θ g hg (List.Perm.refl _) (List.Perm.refl _) hlen a b ha hb hyoung]
+
+/-! ## models describing the same `N(t)` agree -/
+
+/-- **skygrid_all_equal_is_constant** — a skygrid whose pieces are all equal is the constant model. -/
+theorem skygrid_all_equal_is_constant (θ₀ : ℝ) (grid : List ℝ) {samp coal : List ℝ}
+    (hlen : samp.length = coal.length + 1)
+    (hyoung : ∀ c ∈ coal, ∃ s ∈ samp, s < c) (hne : ∀ c ∈ coal, ∀ g ∈ grid, g ≠ c) :
+    skygridLogProb (List.replicate (grid.length + 1) θ₀) grid (samp ++ coal)
+      = constantLogProb θ₀ (samp ++ coal) := by
+  obtain ⟨a, b, ha, hb⟩ := exists_window (samp ++ coal ++ grid)
+  have ha' : ∀ t ∈ samp ++ coal ++ [], a ≤ t := fun t ht => ha t (by simp at ht ⊢; tauto)
+  have hb' : ∀ t ∈ samp ++ coal ++ [], t ≤ b := fun t ht => hb t (by simp at ht ⊢; tauto)
+  rw [skygrid_eq_kingman _ grid (List.Perm.refl _) (List.Perm.refl _) hlen a b ha hb hyoung hne,
+    constant_eq_kingman θ₀ (List.Perm.refl _) (List.Perm.refl _) hlen a b ha' hb']
+  have hN : stepN (List.replicate (grid.length + 1) θ₀) grid = constN θ₀ := by
+    funext t
+    unfold stepN constN
+    exact List.getD_replicate _ (Nat.lt_succ_of_le (List.countP_le_length))
+  rw [hN]
+
 end TTProps.C08
